@@ -41,4 +41,13 @@ Proof.
   apply (mm_roundtrip (TRef s) j (PyCls s) 1 1 V); [reflexivity | | unfold okty; cbn [flat_ty handled andb]; exact G].
   cbn [Image.py_of]. rewrite (N1 s st F), O, F. cbn [Image.smatch]. apply String.eqb_refl.
 Qed.
+(* literal types (message envelopes) at a class that corresponds to the literal in the weak sense of Link.CorrW *)
+Corollary mm_roundtrip_literal ps0 c fs j : lookup_cls Sg c = Some fs -> find_struct mm c = None ->
+  corrw_b mm Sg alias_objects (props_of_lit ps0) fs = true -> mem c GC = true -> cvalid mm (TLit ps0) j ->
+  exists n' o j', structure Sg py_str n' (PyCls c) j = Ok o /\ has_type Sg (PyCls c) o /\ unstr Sg n' (Some (PyCls c)) o = Ok j' /\ NEq j j'.
+Proof.
+  intros L NS CB G V. destruct (names_ok_sound mm H_names) as [N1 [N2 [N3 N4]]]. destruct (fields_ok2_sound Sg H_fields) as [F1 F2].
+  apply (covered_roundtrip Sg py_str (NLmm mm) GC GU H_table H_hooks (PyCls c) j); [unfold okty; cbn [flat_ty handled andb]; exact G|].
+  exact (lit_pvalid mm Sg alias_objects plain_classes H_img F1 F2 N1 N2 N3 N4 ps0 c fs j L NS CB V).
+Qed.
 End MMRound.
